@@ -35,12 +35,29 @@ pub fn pv_text(v: &PropertyValue) -> String {
 /// description (the text before the first `---` section), so that two reports of the same plan
 /// compare equal and a report never compares equal to ordinary rows.
 pub fn str_cell(s: &str) -> String {
+    // RESP sends a float as the bulk string of its decimal text: a string that reads as a
+    // decimal fraction is compared as a float on all three paths (6 decimals: PageRank sums)
+    if s.contains('.') && s.len() < 40 {
+        if let Ok(f) = s.parse::<f64>() {
+            return float_cell(f);
+        }
+    }
     if s.contains("--- Statistics ---") || s.contains("--- Profile ---") {
         let head = s.split("\n---").next().unwrap_or("");
         let letters: String = head.chars().filter(|c| c.is_ascii_alphabetic()).take(120).collect();
         format!("PLAN<{}>", letters)
     } else {
         format!("S{}", esc(s))
+    }
+}
+
+/// A float cell, the same for the engine value, the JSON number and RESP's decimal text:
+/// an integral float is what RESP prints (`2`), anything else is rounded to 6 decimals.
+pub fn float_cell(f: f64) -> String {
+    if f.is_finite() && f.fract() == 0.0 {
+        format!("S{}", esc(&f.to_string()))
+    } else {
+        format!("F{:.6}", f)
     }
 }
 
@@ -104,6 +121,9 @@ pub fn dump(store: &GraphStore) -> String {
 // ---------------------------------------------------------------- outcomes
 
 /// Canonical outcome of one statement: `ok|<columns>|<sorted rows>` or `err|<class>|<first line>`.
+/// A row is a mapping column → value: its cells are listed **in header order** and are never
+/// reordered (only the rows are sorted, a table being a bag of rows), so a value shown under the
+/// wrong column name, a reordered header or a missing column all change the outcome.
 /// Cells: `I<int>`, `S<text>`, `N`, `node`, `rel`, `L[…]`, `?<…>` (anything else).
 #[derive(Clone, Debug, PartialEq, Eq)]
 pub struct Outcome {
@@ -156,6 +176,7 @@ fn value_cell(v: &Value) -> String {
         Value::Property(PropertyValue::Integer(i)) => format!("I{}", i),
         Value::Property(PropertyValue::String(s)) => str_cell(s),
         Value::Property(PropertyValue::Null) => "N".into(),
+        Value::Property(PropertyValue::Float(f)) => float_cell(*f),
         Value::Property(p) => format!("?{}", pv_text(p)),
         Value::Node(..) | Value::NodeRef(..) => "node".into(),
         Value::Edge(..) | Value::EdgeRef(..) => "rel".into(),
@@ -230,7 +251,7 @@ fn json_cell(v: &serde_json::Value) -> String {
     match v {
         J::Null => "N".into(),
         J::Number(n) if n.is_i64() => format!("I{}", n.as_i64().unwrap()),
-        J::Number(n) => format!("?num{}", n),
+        J::Number(n) => n.as_f64().map(float_cell).unwrap_or_else(|| format!("?num{}", n)),
         J::String(s) => str_cell(s),
         J::Bool(b) => format!("?bool{}", b),
         J::Object(o) if o.contains_key("labels") => "node".into(),
